@@ -48,6 +48,9 @@ pub struct SimScheduler {
     /// scheduling point - also those the harness does not make itself (locks / atomics
     /// inside the library, redirected to shuttle by the source shim)
     ctx: Vec<Option<TaskCtx>>,
+    /// per-task floating-point control word (MXCSR): every simulated thread has its own,
+    /// like a real thread; a new task starts with the default (0x1F80)
+    mxcsr: Vec<Option<u32>>,
 }
 
 impl SimScheduler {
@@ -62,11 +65,31 @@ impl SimScheduler {
             dpos: 0,
             last: None,
             ctx: vec![],
+            mxcsr: vec![],
         }
     }
 }
 
 const PCT_EST_STEPS: u64 = 400;
+
+const MXCSR_DEFAULT: u32 = 0x1F80;
+#[cfg(target_arch = "x86_64")]
+#[allow(deprecated)]
+fn get_mxcsr() -> u32 {
+    unsafe { std::arch::x86_64::_mm_getcsr() }
+}
+#[cfg(target_arch = "x86_64")]
+#[allow(deprecated)]
+fn set_mxcsr(v: u32) {
+    // keep the control bits, clear the sticky exception flags
+    unsafe { std::arch::x86_64::_mm_setcsr(v & !0x3f) }
+}
+#[cfg(not(target_arch = "x86_64"))]
+fn get_mxcsr() -> u32 {
+    MXCSR_DEFAULT
+}
+#[cfg(not(target_arch = "x86_64"))]
+fn set_mxcsr(_v: u32) {}
 
 impl Scheduler for SimScheduler {
     fn new_execution(&mut self) -> Option<Schedule> {
@@ -91,6 +114,8 @@ impl Scheduler for SimScheduler {
         self.dpos = 0;
         self.last = None;
         self.ctx.clear();
+        self.mxcsr.clear();
+        set_mxcsr(MXCSR_DEFAULT);
         Some(Schedule::new(seed))
     }
 
@@ -187,6 +212,14 @@ impl Scheduler for SimScheduler {
         }
         let next_ctx = self.ctx.get(idn).copied().flatten().unwrap_or(TaskCtx { zone: zone::OFF, job: events::NO_JOB, client: events::current_client() });
         events::restore_ctx(next_ctx);
+        if let Some(cur) = current {
+            let c = usize::from(cur);
+            if self.mxcsr.len() <= c {
+                self.mxcsr.resize(c + 1, None);
+            }
+            self.mxcsr[c] = Some(get_mxcsr());
+        }
+        set_mxcsr(self.mxcsr.get(idn).copied().flatten().unwrap_or(MXCSR_DEFAULT));
         if self.last != Some(idn) {
             sh.context_switches += 1;
             SWITCHES.fetch_add(1, Ordering::Relaxed);
